@@ -75,7 +75,8 @@ pub struct Replace<T> {
 impl Replace<MetaVariable> {
   fn compute<D: Doc>(&self, ctx: &mut Ctx<D>) -> Option<String> {
     let text = get_text_from_env(&self.source, ctx)?;
-    let re = Regex::new(&self.replace).unwrap();
+    // the regex has been validated by `Transformation::parse`
+    let re = Regex::new(&self.replace).ok()?;
     Some(re.replace_all(&text, &self.by).into_owned())
   }
 }
@@ -142,7 +143,8 @@ impl Transformation<String> {
     Ok(match self {
       T::Replace(r) => T::Replace(Replace {
         source: parse_meta_var(&r.source, lang)?,
-        replace: r.replace.clone(),
+        // report an invalid regex when the rule is loaded, not when it first matches
+        replace: Regex::new(&r.replace).map(|_| r.replace.clone())?,
         by: r.by.clone(),
       }),
       T::Substring(s) => T::Substring(Substring {
